@@ -15,5 +15,5 @@ run_one() {
   rm -rf $S
 }
 export -f run_one
-ids="$@"; if [ -z "$ids" ]; then ids=$(ls $D | grep '^C[0-9][0-9]' | sort); fi
+ids="$@"; if [ -z "$ids" ]; then ids=$(ls $D | grep '^C[0-9][0-9][a-z]$' | sort); fi
 echo $ids | tr ' ' '\n' | xargs -P 3 -I{} bash -c 'run_one {}'
